@@ -763,8 +763,9 @@ def map_overlap(
             if isinstance(new_axis, Number):
                 new_axis = [new_axis]
 
-            # convert negative new_axis to equivalent positive value
-            ndim_out = max(a.ndim for a in args if isinstance(a, Array))
+            # convert negative new_axis to equivalent positive value; the new
+            # axes are positions in the result, which already contains them
+            ndim_out = x.ndim
             new_axis = [d % ndim_out for d in new_axis]
 
             for axis in new_axis:
